@@ -58,15 +58,27 @@ def strip_comments(src):
             i += 1
     return "".join(out)
 
-FORBIDDEN = re.compile(r"\b(Admitted|admit|Axiom|Axioms|Parameter|Parameters|Conjecture|Conjectures|Hypothesis|Hypotheses|Variable|Variables|Context)\b|Admit Obligations|Unset Guard|bypass_check|type-in-type|impredicative-set|Unset Universe|Unset Positivity")
+FORBIDDEN = re.compile(r"\b(Admitted|admit|Axiom|Axioms|Parameter|Parameters|Conjecture|Conjectures)\b|Admit Obligations|Unset Guard|bypass_check|type-in-type|impredicative-set|Unset Universe|Unset Positivity")
+SECTION_ONLY = re.compile(r"\b(Hypothesis|Hypotheses|Variable|Variables|Context)\b")
 
 def audit_coq():
-    """no Admitted/admit/Axiom/... anywhere in the development (comments stripped)"""
+    """no Admitted/admit/Axiom/Parameter/Conjecture/checker switches anywhere in the development
+    (comments stripped); Variable/Hypothesis/Context only inside a Section (where they are
+    discharged as ordinary quantifiers, not axioms)"""
     bad = []
     for f in glob.glob(os.path.join(COQ, "theories", "**", "*.v"), recursive=True):
         src = strip_comments(open(f).read())
         for m in FORBIDDEN.finditer(src):
             bad.append("%s: %s" % (os.path.relpath(f, ROOT), m.group(0)))
+        depth = 0
+        for sent in re.split(r"\.\s", src):
+            s = sent.strip()
+            if re.match(r"^(Section|Module)\s+\w+$", s):
+                depth += 1 if s.startswith("Section") else 0
+            elif re.match(r"^End\s+\w+$", s) and depth > 0:
+                depth -= 1
+            elif depth == 0 and SECTION_ONLY.search(s):
+                bad.append("%s: %s outside a section" % (os.path.relpath(f, ROOT), SECTION_ONLY.search(s).group(0)))
     proj = open(os.path.join(COQ, "_CoqProject")).read()
     if re.search(r"type-in-type|impredicative-set|bypass", proj):
         bad.append("_CoqProject: forbidden flag")
